@@ -45,7 +45,7 @@ def norm(canon, keep_kind=False):
 
 
 def kinds_compatible(truth, got):
-    """int stays int; float stays float unless its exponent is exactly 0 (then JSON has no way to say so)"""
+    """int stays int; float stays float unless its exponent is exactly 0 (apd 'G' then prints the bare coefficient)"""
     a = NUM_RE.findall(truth)
     b = NUM_RE.findall(got)
     if len(a) != len(b):
@@ -53,11 +53,12 @@ def kinds_compatible(truth, got):
     for (ka, _, _, ea), (kb, _, _, _) in zip(a, b):
         if ka == "i" and kb != "i":
             return False
-        if ka == "d" and kb != "d" and int(ea) < 0:
+        if ka == "d" and kb != "d" and int(ea) != 0:
             return False
     return True
 
 
+STRTOK_RE = re.compile(rb'"(?:[^"\\]|\\.)*"', re.S)
 KEY_RE = re.compile(r"k([0-9a-f]*):")
 QQ_RE = re.compile(r"(?:^|[\[,:{])[sk]2222")
 
@@ -225,8 +226,8 @@ def run(ctx):
         args += ["--ndoc", "5000", "--nmut", "5000", "--nval", "3000", "--nstr", "4000", "--nnum", "4000",
                  "--nfmt", "3000", "--nesc", "3000"]
     else:
-        args += ["--ndoc", "120000", "--nmut", "120000", "--nval", "60000", "--nstr", "80000", "--nnum", "80000",
-                 "--nfmt", "50000", "--nesc", "50000"]
+        args += ["--ndoc", "60000", "--nmut", "60000", "--nval", "30000", "--nstr", "40000", "--nnum", "40000",
+                 "--nfmt", "30000", "--nesc", "30000"]
     vlib.run(args, timeout=3000)
     lap("harness_run")
     cases = open(os.path.join(ctx.work, "cases.txt")).read().split("\n")[:-1]
@@ -289,6 +290,7 @@ def run(ctx):
                 known("qq")
                 continue
             # F13: NFC normalisation of string labels is applied here from the per-case oracle
+            raw_model_cue = fm["cue"]
             mcue = apply_nfc(fm["cue"], fi.get("nfc", "-"))
             nfc_changed = mcue != fm["cue"]
             fm["cue"] = mcue
@@ -344,12 +346,12 @@ def run(ctx):
             if fi["blt"] == "diff":
                 bad("builtin encoding/json.Unmarshal disagrees with json.Extract on the same document", c, i, m)
                 continue
-            if fi["m"] == "ERR":
+            if fi["m"] in ("ERR", "PANIC"):
                 bad("a decoded document cannot be marshalled", c, i, m)
                 continue
             if len(picks) < (25 if quick else 200) and len(doc) < 120 and idx % 37 == 5 and "#N" not in fi["cue"] \
                     and not re.search(r"e-?\d{4,}", fm["cue"] + fm["spec"]):
-                picks.append((doc, fm["cue"], fm["spec"]))
+                picks.append((doc, raw_model_cue, fm["spec"]))
             if len(samples) < 4 and cls == "gen" and 30 < len(doc) < 160 and idx % 53 == 7:
                 samples.append({"doc": doc.decode("utf-8", "replace"), "cue": fi["cue"][:300], "model": fm["cue"][:300]})
         elif k == "ENC":
@@ -376,6 +378,12 @@ def run(ctx):
             if norm(fi["std"]) != nt or not kinds_compatible(truth, fi["std"]):
                 bad("Value.MarshalJSON bytes read by Go encoding/json differ from the ground truth", c, i, m,
                     marshalled=mb.decode("utf-8", "replace"))
+                continue
+            # escaping: the string literals of the output are exactly what the model of Go's escaper
+            # (escapeHTML off) writes for the strings they denote
+            if STRTOK_RE.findall(mb) != STRTOK_RE.findall(unhex(fm["re"])):
+                bad("string literals in Value.MarshalJSON output are not escaped the way encoding/json with "
+                    "SetEscapeHTML(false) escapes them", c, i, m, marshalled=mb.decode("utf-8", "replace"))
                 continue
             # cue reading its own output: Impl model on the marshalled bytes, and the round trip itself
             if fi["rt"] == "REJECT" and fm["cue"] != "REJECT" and QQ_RE.search(fm["spec"]):
